@@ -211,7 +211,9 @@ def main():
     L = []
     L.append('(* GENERATED by tools/gen/gen_renderfilter.py from /repo -- do not edit *)')
     L.append('From Coq Require Import List NArith String.')
-    L.append('From NB Require Import Base.Json Diff.Codec Sys.RenderTypes.')
+    L.append('From NB Require Import Base.Json.')
+    L.append('From NB Require Import Diff.Codec.')
+    L.append('From NB Require Import Sys.RenderTypes.')
     L.append('Import ListNotations.')
     L.append('')
     L.append('Definition ignore_rules : list rule := [')
